@@ -145,13 +145,15 @@ def solver_case(rep, spec, index):
 
 
 # -------------------------------------------------------------------------------------------------- measurement extraction
-def molar_twin_set(cs, mix):
+def molar_twin_set(cs, mix, mixed=False):
+    """the same curves with mole-fraction abscissae; mixed=True: the first point of every curve stays a mass fraction
+    (the basis is a per-point attribute, the csv format stores it per row)"""
     from pyvaporation.diffusion_curve import DiffusionCurve, DiffusionCurveSet
 
     curves = []
     for c in cs.diffusion_curves:
         curves.append(DiffusionCurve(mixture=mix, membrane_name=c.membrane_name, feed_temperature=c.feed_temperature,
-                                     feed_compositions=[gen.to_molar_exact(x, mix) for x in c.feed_compositions],
+                                     feed_compositions=[x if (mixed and i == 0) else gen.to_molar_exact(x, mix) for i, x in enumerate(c.feed_compositions)],
                                      permeances=[(p[0], p[1]) for p in c.permeances], comments=c.comments))
     return DiffusionCurveSet(name=cs.name, diffusion_curves=curves)
 
@@ -162,8 +164,9 @@ def measurement_case(rep, spec, index):
     rng = gen.case_rng(PROP + "M", spec["seed"], spec["shard"], index)
     mix, mdesc = gen.gen_mixture(rng)
     cs, desc = gen.gen_curve_set(rng, mix, basis="weight", units=rng.choice(gen.UNITS))
-    tw = molar_twin_set(cs, mix)
-    case = {"index": index, "level": "measurements", "mixture": mdesc, "curve_set": desc}
+    mixed = rng.random() < 0.4
+    tw = molar_twin_set(cs, mix, mixed=mixed)
+    case = {"index": index, "level": "measurements", "mixture": mdesc, "curve_set": desc, "twin": "first point mass fraction, others mole fractions" if mixed else "all mole fractions"}
     m1, m2 = mix.first_component.molecular_weight, mix.second_component.molecular_weight
     rep.case(case, nontrivial=m1 != m2, cls="measurements")
     cond = max(1.0, m1 / m2, m2 / m1)
